@@ -7,7 +7,7 @@ use std::sync::Arc;
 use std::time::Duration;
 use http::header::{HeaderMap, HeaderName, HeaderValue, CONTENT_LENGTH, TRANSFER_ENCODING, CONTENT_ENCODING, CONTENT_TYPE};
 use flate2::bufread::{DeflateDecoder, GzDecoder};
-use http::{Method, StatusCode};
+use http::{Method, StatusCode, Version};
 use url::Url;
 use encoding_rs::Encoding;
 //@@ define head
